@@ -51,24 +51,31 @@ fn order_cases(run: &mut Run, rng: &mut Rng, rt: &tokio::runtime::Runtime, thoro
             if rng.chance(1, 4) { c.priority = *rng.pick(&[1u32, 100, 2130706431, 1694498815, 16777215, 0x7fff_ffff]); }
             c
         };
-        let nl = rng.range(1, if i % 5 == 0 { 5 } else { 3 }) as usize;
+        // preamble variants: state other than Checking / a pair already selected (nothing happens), no local candidate at
+        // all (a controlling agent synthesizes active-TCP locals for remote passive-TCP candidates)
+        let variant = if i % 9 == 4 { 1 } else if i % 9 == 5 { 2 } else if i % 9 == 6 { 3 } else { 0 };
+        let nl = if variant == 3 { 0 } else { rng.range(1, if i % 5 == 0 { 5 } else { 3 }) as usize };
         let nr = rng.range(1, 4) as usize;
         let locals: Vec<IceCandidate> = (0..nl).map(|_| mkc(rng, false)).collect();
         let remotes: Vec<IceCandidate> = (0..nr).map(|_| mkc(rng, true)).collect();
+        let remotes: Vec<IceCandidate> = if variant == 3 { remotes.into_iter().map(|mut r| { if rng.chance(1, 2) { r = IceCandidate::host_tcp(SocketAddr::new(ips[2], r.address.port()), r.component, TcpType::Passive); } r }).collect() } else { remotes };
         for l in &locals { t.verif_add_local_candidate(l.clone()); }
         for r in &remotes { t.verif_add_remote_candidate_quiet(r.clone()); }
+        if variant == 1 { t.verif_set_state(*rng.pick(&[IceTransportState::New, IceTransportState::Connected, IceTransportState::Completed, IceTransportState::Failed, IceTransportState::Disconnected])); }
+        if variant == 2 { t.verif_set_selected_pair(Some(rustrtc::transports::ice::IceCandidatePair::new(locals[0].clone(), remotes[0].clone()))); }
         pairs::take();
         rt.block_on(t.verif_run_connectivity_checks());
         let rec = pairs::take();
-        let id = |a: SocketAddr| a.port() as u32 - 40000;
+        let id = |a: SocketAddr| if a.port() == 0 { 99999 } else { a.port() as u32 - 40000 };
         let out = match rec.last() { Some(l) if !l.is_empty() => l.iter().map(|(a, b, _)| format!("{}>{}", id(*a), id(*b))).collect::<Vec<_>>().join(";"), _ => "-".to_string() };
         let ctext = |side: &str, c: &IceCandidate| {
             let private = match c.address.ip() { IpAddr::V4(v) => v.is_private(), IpAddr::V6(v) => v.is_unique_local() };
             format!("{side},{},{},{},{},{},{},{},{},{}", id(c.address), c.priority, (c.transport == "tcp") as u8, c.component, c.address.ip().is_loopback() as u8,
                 c.address.is_ipv4() as u8, (c.tcp_type == Some(TcpType::Passive)) as u8, (c.typ == IceCandidateType::Host) as u8, private as u8) };
-        let input = format!("{} {} {}", if role == IceRole::Controlling { "controlling" } else { "controlled" }, prefer as u8,
+        let input = format!("{} {},{},{} {}", if role == IceRole::Controlling { "controlling" } else { "controlled" }, prefer as u8, (variant != 1) as u8, (variant == 2) as u8,
             locals.iter().map(|c| ctext("L", c)).chain(remotes.iter().map(|c| ctext("R", c))).collect::<Vec<_>>().join(" "));
         run.case("pairorder", &input, &out, out != "-");
+        run.count(&format!("pairorder_preamble_variant_{variant}_{}", if out == "-" { "nothing" } else { "list" }));
         // oracle (RFC 8445 §6.1.2.3): without the re-sort the list is in non-increasing pair-priority order
         if let Some(l) = rec.last() { if !prefer && l.windows(2).any(|w| w[0].2 < w[1].2) { run.fail("codec:pair-order:not-descending-by-pair-priority", &format!("pairorder {input}"), &out); } }
         t.stop();
